@@ -53,7 +53,7 @@ def run(run):
     closures = _discover(project)
     for r, n in (("C11.R1", 6), ("C11.R2", 6), ("C11.R3", 12), ("C11.R4", 5), ("C11.R5", 2)):
         run.floor(r, n)
-    found = {f.qual.split(".")[2] for f, outer in closures}
+    found = {outer.name for f, outer in closures}
     for name in LAYOUT:
         if name not in found:
             o = project.funcs.get(S + "." + name)
@@ -67,15 +67,30 @@ def run(run):
 
 
 def _discover(project):
-    """Nested functions of samplers.py returning <captured map>[...]."""
+    """The callable each documented sampler factory hands back: a nested function (closure) of the factory, or the __call__ of
+    a project class whose instance the factory returns (the closure's captured variables are then the object's fields)."""
     out = []
-    for f in project.functions_in(S):
-        if f.parent is None or f.cls is not None:
+    for name in LAYOUT:
+        outer = project.funcs.get(S + "." + name)
+        if outer is None:
             continue
-        rets = [n for n in own_nodes(f.node) if isinstance(n, ast.Return) and isinstance(n.value, ast.Subscript)
-                and isinstance(n.value.value, ast.Name)]
-        if rets and f.parent.name in LAYOUT:
-            out.append((f, f.parent))
+        ev = sym.make_evaluator(project, S, [], inline_local=True)
+        ev.model_objects = True
+        try:
+            ro = ev.run(outer.node)
+        except Exception:
+            continue
+        if len(ro.returns) != 1:
+            continue
+        R = ro.returns[0][1]
+        if R[0] == "sym" and R[1].startswith("<closure ") and R[1][9:-1] in ro.nested:
+            f = project.funcs.get("%s.%s.%s" % (S, name, R[1][9:-1]))
+            if f is not None:
+                out.append((f, outer))
+        elif R in ro.objects:
+            f = project.funcs.get(ro.objects[R][0] + ".__call__")
+            if f is not None and len(f.params()) == 3:
+                out.append((f, outer))
     return out
 
 
@@ -138,12 +153,24 @@ def _check_closure(run, f, outer):
     shift_pi, d_want, frame, desc = LAYOUT[name]
     run.note_func(f, outer)
     ev = sym.make_evaluator(project, S, [], inline_local=True)
+    ev.model_objects = True           # a lookup object built by the factory (fields = what a closure would capture) is followed
+    ev.inline_resolved = True         # ... also when it is built by a classmethod / used through its methods
     ro = ev.run(outer.node)
-    if f.name not in ro.nested:
+    R = ro.returns[0][1] if len(ro.returns) == 1 else None
+    if f.cls is not None and R in ro.objects:
+        # the factory returns an object: its __call__ evaluated with the fields the constructor left
+        fields = dict(ro.objects[R][1])
+        fenv = dict(ro.env or {})
+        fenv.update(fields)
+        r = ev.run(f.node, env=fenv, args={f.params()[0]: R})
+        call_params = f.params()[1:]
+    elif f.name in ro.nested:
+        fn, env = ro.nested[f.name]
+        r = ev.run(fn, env=env)
+        call_params = f.params()
+    else:
         run.undecided("C11.R1", f, None, "closure not reachable in its factory", kind="closure")
         return
-    fn, env = ro.nested[f.name]
-    r = ev.run(fn, env=env)
     if len(r.returns) != 1:
         run.undecided("C11.R1", f, None, "%s: closure has %d return statements" % (name, len(r.returns)), kind="returns")
         return
@@ -153,11 +180,21 @@ def _check_closure(run, f, outer):
     if ret[0] != "sub" or ret[2][0] != "tuple" or len(ret[2][1]) != 2:
         run.undecided("C11.R1", f, node, "%s: result %s is not map[iy, ix]" % (name, show(ret)[:100]), kind="result-shape")
         return
+    # a project helper / constructor inside the result that the evaluator did not follow: its fields are unknown quantities, and a
+    # comparison of such a quantity with nx / ny says nothing
+    from . import common as _common
+    pnames = _common.project_names(project)
+    opaque = [x for x in _subterms_all(ret) if x[0] == "call" and ((x[1][0] == "sym" and x[1][1] in pnames) or (x[1][0] == "attr" and x[1][2] in pnames and
+              x[1][2] not in ("get", "shape", "copy") and x[1][1] not in (("sym", "np"), ("sym", "numpy"), ("sym", "math"), ("sym", "u"))))]
+    if opaque:
+        run.undecided("C11.R1", f, node, "%s: the result goes through %s, which is not followed: the index algebra of this form is not decided" % (name, show(opaque[0])[:80]),
+                      kind="result-opaque")
+        return
     mapt = ret[1]
     shp = ("sub", ("attr", mapt, "shape"), ("slice", sym.NONE, num(2), sym.NONE))
     ny, nx = ("item", shp, 0), ("item", shp, 1)
     ny2, nx2 = ("item", ("attr", mapt, "shape"), 0), ("item", ("attr", mapt, "shape"), 1)
-    lon_p, lat_p = ("sym", f.params()[0]), ("sym", f.params()[1])
+    lon_p, lat_p = ("sym", call_params[0]), ("sym", call_params[1])
     idx_y, idx_x = ret[2][1]
     # ---- which index is which: by the coordinate it depends on
     def coord_of(t):
@@ -314,3 +351,13 @@ def _check_closure(run, f, outer):
         else:
             run.violated("C11.R5", f, node, "%s: the indexed coordinates are not the (%s, %s) of ICRS(lon*rad, lat*rad) transformed to the map's frame" % (
                 name, frame[0], frame[1]), kind="frame-rotation", **facts)
+
+
+def _subterms_all(t):
+    if isinstance(t, tuple):
+        if t and isinstance(t[0], str):
+            yield t
+        for x in t:
+            if isinstance(x, tuple):
+                for y in _subterms_all(x):
+                    yield y
